@@ -36,6 +36,8 @@ pub enum StdKind {
 pub enum StartTlsResp {
     Success,
     Code(u32),
+    /// a non-zero result code that does not fit 32 bits
+    CodeWide(u64),
     Garbage,
     Close,
     Silent,
@@ -255,6 +257,14 @@ fn tls_peer(mut s: TcpStream, scheme_starttls: bool, starttls: StartTlsResp, tls
                     }
                     StartTlsResp::Code(rc) => {
                         let _ = s.write_all(&ext_response(id, rc));
+                    }
+                    StartTlsResp::CodeWide(w) => {
+                        let b = ber::encode(&msg::resp_tlv(&msg::Resp {
+                            id,
+                            op: msg::RespOp::Result { tag: 24, res: msg::ResultSpec { rc_wide: Some(w), exop_name: Some(String::from_utf8_lossy(STARTTLS_OID).into_owned()), ..msg::ResultSpec::simple(1, "starttls") } },
+                            ctrls: None,
+                        }));
+                        let _ = s.write_all(&b);
                     }
                     StartTlsResp::Garbage => {
                         let _ = s.write_all(&[0x30, 0x03, 0xff, 0xff, 0xff, 0x15, 0x03]);
